@@ -270,6 +270,59 @@ theorem C11_scan_skip_sound (kind : Kind) (cfg : Cfg) (hk : KindOK hash kind) (h
       | len => simp only [Backend.step]; exact ⟨hi, hw⟩
       | walk => simp only [Backend.step]; exact ⟨hi, hw⟩
 
+/-- One step never lowers the "expirations were set" counter: nothing in the package resets it (a cleanup cycle only
+    reads it). -/
+theorem xstep_expirationsSet_mono (kind : Kind) (cfg : Cfg) (s : Store) (now : Time) (xop : XOp) :
+    s.expirationsSet ≤ (Backend.xstep hash kind cfg s now xop).1.expirationsSet := by
+  cases xop with
+  | restore e => simp only [Backend.xstep, Store.restoreOne]; split <;> omega
+  | cleanup ho so hn needed =>
+    have : (s.cleanup kind cfg { now, ho, so, hasNeeded := hn, needed }).1.expirationsSet = s.expirationsSet := by
+      unfold Store.cleanup; simp only; split <;> simp [Store.evictLeast, Store.evict, cleanupScan_expirationsSet]
+    simp only [Backend.xstep]; omega
+  | base op =>
+    simp only [Backend.xstep]
+    cases op with
+    | write k v ctxTTL rn rd => simp only [Backend.step, Store.write, Store.writeCore]; split <;> omega
+    | store k v rn rd => simp only [Backend.step, Store.write, Store.writeCore]; split <;> omega
+    | read k skip => simp only [Backend.step]; rw [read_expirationsSet]; exact Int.le_refl _
+    | load k => simp only [Backend.step]; rw [read_expirationsSet]; exact Int.le_refl _
+    | delete k =>
+      have : (s.delete hash kind k).1.expirationsSet = s.expirationsSet := by
+        unfold Store.delete; simp only; split <;> rfl
+      simp only [Backend.step]; omega
+    | expireAll => simp only [Backend.step, Store.expireAll]; split <;> omega
+    | deleteAll => simp only [Backend.step, Store.deleteAll]; exact Int.le_refl _
+    | len => simp only [Backend.step]; exact Int.le_refl _
+    | walk => simp only [Backend.step]; exact Int.le_refl _
+
+/-- **C11_scan_stays_enabled** — along every history of public operations, cleanup cycles and restored records the
+    counter never decreases, so once the cleanup scan of an Unlimited cache has been switched on (a per-call TTL, an
+    ExpireAll, a restored expiring record) it stays on for every later cycle: an entry that was still fresh or only
+    recently expired at one cycle is still looked at by all the following ones. -/
+theorem C11_scan_stays_enabled (kind : Kind) (cfg : Cfg) (h : XHistory) : ∀ s : Store,
+    s.expirationsSet ≤ (Backend.xrun hash kind cfg s h).1.expirationsSet ∧
+    (scanOn cfg s = true → scanOn cfg (Backend.xrun hash kind cfg s h).1 = true) := by
+  induction h with
+  | nil => intro s; exact ⟨Int.le_refl _, id⟩
+  | cons top rest ih =>
+    intro s
+    obtain ⟨now, xop⟩ := top
+    simp only [Backend.xrun]
+    have h1 := xstep_expirationsSet_mono hash kind cfg s now xop
+    have ⟨h2, _⟩ := ih (Backend.xstep hash kind cfg s now xop).1
+    have hmono : s.expirationsSet ≤
+        (Backend.xrun hash kind cfg (Backend.xstep hash kind cfg s now xop).1 rest).1.expirationsSet := by omega
+    refine ⟨hmono, ?_⟩
+    intro hon
+    cases hoff : scanOn cfg (Backend.xrun hash kind cfg (Backend.xstep hash kind cfg s now xop).1 rest).1 with
+    | true => rfl
+    | false =>
+      exfalso
+      have h3 := (scanOn_false_iff cfg _).mp hoff
+      have : scanOn cfg s = false := (scanOn_false_iff cfg s).mpr ⟨h3.1, by omega⟩
+      rw [this] at hon; cases hon
+
 theorem scanInv_empty (cfg : Cfg) : ScanInv hash cfg Store.empty :=
   ⟨by simp [Store.empty], fun _ k e he => by simp at he⟩
 
@@ -282,6 +335,16 @@ theorem C11_default_backend_config_unaltered (v : Variant) (backendConfig altere
   cases v <;> simp [defaultBackendCfg, backendCfgPassthrough, Gen.backendCfgPassthrough, Gen.backendCfgPassthroughOf]
 
 /-! ### Non-vacuity: an Unlimited cache holding a never-expiring, a fresh, a recently and a long expired entry -/
+/-- `C11_scan_stays_enabled` is not vacuous: on an Unlimited cache one per-call TTL switches the scan on (it is off before),
+    and it is still on after a cleanup cycle, a never-expiring write and a second cycle. -/
+example :
+    let cfg : Cfg := { ttl := -1, jn := -1, jd := 1, strategy := .mostExpired, deleteExpiredAfter := 100, countSoftLimit := 0, efn := 1, efd := 2 }
+    let s1 := (Backend.xrun id .sharded cfg Store.empty [(1000, .base (.write 2 (some 2) 500 0 1))]).1
+    let h : XHistory := [(1010, .cleanup false false false false), (1020, .base (.write 1 (some 1) 0 0 1)),
+                         (1030, .cleanup false false false false)]
+    scanOn cfg Store.empty = false ∧ scanOn cfg s1 = true ∧ scanOn cfg (Backend.xrun id .sharded cfg s1 h).1 = true := by
+  decide +kernel
+
 example :
     let cfg : Cfg := { ttl := -1, jn := -1, jd := 1, strategy := .mostExpired, deleteExpiredAfter := 100, countSoftLimit := 0, efn := 1, efd := 2 }
     let h : XHistory := [(1000, .base (.write 1 (some 1) 0 0 1)), (1000, .base (.write 2 (some 2) 500 0 1)),
